@@ -13,6 +13,7 @@ from vp import gen, probe, refmodels as rm
 from vp import defaults
 from vp import reuse
 from vp import forms as argforms
+from vp import corners
 
 RULE = ('seeded generator: circular / hexagon-like / segmented / off-centre / speckled masks 8..28 per side, random '
         'coefficient vectors, random non-empty subsets of modes 1..21 in random order (contiguous 1..k, non-contiguous, '
@@ -21,7 +22,7 @@ RULE = ('seeded generator: circular / hexagon-like / segmented / off-centre / sp
         '(mask hash, mode list, flags) descriptors; non-trivial = at least two masked samples per mode.')
 ASSUMPTIONS = ['modes linearly independent on the mask (condition number < 1e8), as the property requires']
 PLAN = {'quick': {'gen': 8}, 'thorough': {'gen': 16, 'tests': 1}}
-REQUIRED_BUCKETS = ['defaults', 'reuse', 'forms', 'modes:contiguous', 'modes:noncontiguous', 'modes:unordered', 'modes:single-high', 'normalize:True',
+REQUIRED_BUCKETS = ['defaults', 'corners', 'reuse', 'forms', 'modes:contiguous', 'modes:noncontiguous', 'modes:unordered', 'modes:single-high', 'normalize:True',
                     'normalize:False', 'coords:default', 'coords:supplied', 'mask:circular', 'mask:segmented', 'mask:offcentre', 'mask:weighted', 'mask:subaperture', 'cond>1e4', 'coords:switched', 'outside:fill', 'coeffs:vector-forms', 'modes:very-high', 'modes:permuted-prefix', 'modes:many', 'modes:array-forms', 'coords:half-supplied', 'coords:narrow-float', 'remove:ill-conditioned']
 REQUIRED_ANCHORS = ['anchor:zernike_fit', 'anchor:zernike_remove', 'anchor:zernike_compose', 'anchor:zernike_basis']
 REQUIRED_ORACLES = ['compose=own-basis', 'fit=coeffs', 'remove:residual-coeffs=0', 'remove=lstsq', 'remove:idempotent',
@@ -122,6 +123,7 @@ def workload(ctx, lentil):
     defaults.run(ctx, lentil, 'C12', 'compose=own-basis')
     reuse.run(ctx, lentil, 'C12', 'compose=own-basis')
     argforms.run(ctx, lentil, 'C12', 'compose=own-basis')
+    corners.run(ctx, lentil, 'C12', 'compose=own-basis')
     rng = ctx.rng
     Z = zmod()
     if ctx.shard % 2 == 0:
